@@ -57,3 +57,7 @@ Proof.
     pose proof (drain_closed_pipe (insert f (heap b)) (next b) (pipe b)) as H.
     destruct (drain true _ _ _) as [[[h nx] p] c]. cbn in *. exact H.
 Qed.
+
+Lemma cat_snoc' F b n : cat F b (S n) = cat F b n ++ P F (b + N.of_nat n).
+Proof. unfold cat. replace (S n) with (n + 1)%nat by lia.
+  rewrite range_app, flat_map_app. cbn. now rewrite app_nil_r. Qed.
